@@ -13,6 +13,7 @@ differential execution (harness/props/c21.py).  `C21_full` below is the statemen
 -/
 import AgVerif.Proof.Translate
 import AgVerif.Model.LitCtx
+import AgVerif.Proof.JExprMain
 
 namespace AgVerif.C21
 open AgVerif.Translate AgVerif.JavaSem
@@ -148,6 +149,58 @@ theorem long_literal_without_suffix_is_int :
     step (.const true 64 0) wEnv 1 = .value (.ok (.long 1)) := by
   constructor <;> rfl
 
+/-! ## print_parse: the printed expression re-parses, under Java's precedence and associativity, to the tree it was printed from
+
+`JExpr.DExpr` are DAD's IR expressions, `JExpr.print` the lexemes `Writer.visit_*` writes for them (tied to the real
+Writer on random real IR trees by the correspondence stream `jexpr`), `JExpr.parse` a precedence-climbing parser of
+JLS 15 (10 levels of left-associative binary operators, unary operators, primitive and reference casts,
+`.f` `[i]` `(args)` suffixes, `new`), `JExpr.toJava` the Java tree an IR expression stands for (parentheses are nodes;
+a negative constant is a unary minus on a literal). `JExpr.WF` says that every operand is printed in a form that
+binds at least as tightly as its position requires — true of every tree DAD builds, where bare comparisons occur only
+at the top of a condition. -/
+
+/-- for EVERY well-formed IR expression (constants, variables, parameters, `this`, class names, binary and unary
+    operations, primitive and reference casts, comparisons with and without a zero/null operand, `Long.compare`,
+    instance and static fields, array access/length/creation, invocations and `new` with any number of arguments,
+    nested to any depth) the JLS parser consumes exactly the printed lexemes and returns the tree of the expression -/
+theorem print_parse (e : JExpr.DExpr) (h : JExpr.WF e) : JExpr.parse (JExpr.print e) = some (JExpr.toJava e) :=
+  JExpr.print_parse_wf e h
+
+/-- the printed lexemes determine the Java expression: two well-formed IR expressions with the same text stand for
+    the same Java tree -/
+theorem print_tokens_injective (e₁ e₂ : JExpr.DExpr) (h₁ : JExpr.WF e₁) (h₂ : JExpr.WF e₂)
+    (h : JExpr.print e₁ = JExpr.print e₂) : JExpr.toJava e₁ = JExpr.toJava e₂ :=
+  JExpr.print_determines_tree e₁ e₂ h₁ h₂ h
+
+/-- the parser is not vacuous (1): a Writer that drops the parentheses of a RIGHT operand prints, for every operator
+    and all primaries a b c, `a op (b op c)` as the lexemes of `(a op b) op c` -/
+theorem noparen_right_reassociates (o : JExpr.BinOp) (a b c : JExpr.DExpr) (ha : JExpr.WF a) (hb : JExpr.WF b)
+    (hc : JExpr.WF c) (la : 15 ≤ JExpr.level a) (lb : 15 ≤ JExpr.level b) (lc : 15 ≤ JExpr.level c) :
+    JExpr.parse (JExpr.printDropRight (.bin o a (.bin o b c))) =
+      some (.paren (.bin o (.bin o (JExpr.toJava a) (JExpr.toJava b)) (JExpr.toJava c))) :=
+  JExpr.noParen_right_reassociates o a b c ha hb hc la lb lc
+
+/-- the parser is not vacuous (2): a Writer that drops the parentheses of a LEFT operand prints `(a + b) * c` as the
+    lexemes of `a + (b * c)` -/
+theorem noparen_left_regroups (a b c : JExpr.DExpr) (ha : JExpr.WF a) (hb : JExpr.WF b)
+    (hc : JExpr.WF c) (la : 15 ≤ JExpr.level a) (lb : 15 ≤ JExpr.level b) (lc : 15 ≤ JExpr.level c) :
+    JExpr.parse (JExpr.printDropLeft (.bin .mul (.bin .add a b) c)) =
+      some (.paren (.bin .add (JExpr.toJava a) (.bin .mul (JExpr.toJava b) (JExpr.toJava c)))) :=
+  JExpr.noParen_left_regroups a b c ha hb hc la lb lc
+
+/-- kernel-checked refutation for the variant printers: `(v0 - (v1 - v2))` and `((v0 + v1) * v2)` do not re-parse to
+    the tree they were printed from once the operand's parentheses are dropped -/
+theorem noparen_refuted :
+    JExpr.parse (JExpr.printDropRight (.bin .sub (.var "0") (.bin .sub (.var "1") (.var "2")))) ≠
+      some (JExpr.toJava (.bin .sub (.var "0") (.bin .sub (.var "1") (.var "2")))) ∧
+    JExpr.parse (JExpr.printDropLeft (.bin .mul (.bin .add (.var "0") (.var "1")) (.var "2"))) ≠
+      some (JExpr.toJava (.bin .mul (.bin .add (.var "0") (.var "1")) (.var "2"))) := by
+  constructor
+  · rw [noparen_right_reassociates _ _ _ _ (by decide) (by decide) (by decide) (by decide) (by decide) (by decide)]
+    simp [JExpr.toJava]
+  · rw [noparen_left_regroups _ _ _ (by decide) (by decide) (by decide) (by decide) (by decide) (by decide)]
+    simp [JExpr.toJava]
+
 /-! ## non-vacuity -/
 
 example : ∃ r ∈ rows, r.mnemonic = "ushr-int" ∧ r.op = ">>>" := by decide +kernel
@@ -157,5 +210,14 @@ example : javaOutcome (.binop false .ushr) (.bin .ushr (.r 2) (.r 3)) wEnv 0 = s
   rfl
 example : rows.length = 94 := by decide
 example : exec ⟨fun _ => 7, fun _ => 7⟩ (.compound .int 1 .shr (.var .int 2)) = .ok (.int 0) := by rfl
+
+/-- `p0.get(((int) (v1 - -3L)), new foo.Bar(v2[(- v3)])).length < Long.compare(v4, 5L)` is well formed -/
+example : JExpr.WF (.cond .lt
+    (.alength (.invoke (.param "0") "get"
+      [.cast .int (.bin .sub (.var "1") (.const (-3) true)),
+       .newObj "foo" ["Bar"] [.aload (.var "2") (.un .neg (.var "3"))]]))
+    (.cmp true (.var "4") (.const 5 true))) := by decide
+/-- a bare comparison as an operand is not -/
+example : ¬ JExpr.WF (.bin .add (.cond .lt (.var "0") (.var "1")) (.var "2")) := by decide
 
 end AgVerif.C21
